@@ -78,3 +78,14 @@ Proof.
       * pose proof (round53_binade a Ha') as Ba. pose proof (round53_binade b Hb) as Bb.
         assert (2 ^ (Z.log2 a + 1) <= 2 ^ Z.log2 b) by (apply Z.pow_le_mono_r; lia). lia.
 Qed.
+
+(** only 0 is rounded to 0: an exact hit of a printed time has computed distance 0 and nothing else has *)
+Lemma round53_zero : round53 0 = 0.
+Proof. reflexivity. Qed.
+Lemma round53_pos a : 0 < a -> 0 < round53 a.
+Proof.
+  intro H. destruct (Z_lt_le_dec a (2 ^ 53)) as [Hs|Hb].
+  - rewrite round53_small by exact Hs. exact H.
+  - pose proof (round53_binade a Hb) as B. pose proof (Z.log2_nonneg a) as Ln.
+    assert (0 < 2 ^ Z.log2 a) by (apply pow2_pos; exact Ln). lia.
+Qed.
